@@ -185,6 +185,7 @@ class AsmResult:
         self.bpa = int(r["bpa"])
         self.cpu = int(r["cpu"])
         self.icount = int(r["icount"])
+        self.read8_bad = int(r.get("r8bad", b"-1") or b"-1")
         self.sym1 = self._syms(r["sym1"])
         self.sym2 = self._syms(r["sym2"])
         self.image = {}
